@@ -103,6 +103,7 @@ pub fn roomy_cfg(rng: &mut Rng, flavor: Flavor) -> Cfg {
         callback: CallbackMode::Full,
         use_defaults: false,
         recipe: 0,
+        decoy: false,
     }
 }
 
@@ -351,6 +352,12 @@ pub struct PProfile {
     pub ttl_narrow: bool,
     /// let every pending deadline pass at the end and look again
     pub settle: bool,
+    /// all keys live in one shard (k ≡ r mod 256): the shard's table grows and moves its entries
+    pub same_shard: bool,
+    /// half of the lookups are get_mut
+    pub get_mut_heavy: bool,
+    /// async flavour on per-task executors only; % of removes / waits whose future is cancelled
+    pub cancel_pct: u64,
     /// % of lookups during whose hold the same client calls close()
     pub hold_close_pct: u64,
     /// % of lookups during whose hold the same client calls max_cost()/update_max_cost()
@@ -390,6 +397,9 @@ impl Default for PProfile {
             vstall_pct: 0,
             ttl_narrow: false,
             settle: false,
+            same_shard: false,
+            get_mut_heavy: false,
+            cancel_pct: 0,
             hold_close_pct: 0,
             hold_umc_pct: 0,
         }
@@ -441,6 +451,7 @@ fn chaos_step(rng: &mut Rng) -> u64 {
 pub fn gen_p_family(prop: &str, seed: u64, pf: &PProfile) -> Plan {
     let mut rng = Rng::new(seed ^ 0x9a_77);
     let flavor = pick_flavor(&mut rng);
+    let flavor = if pf.cancel_pct > 0 { Flavor::Async } else { flavor };
     let faulty = rng.chance(pf.faulty_pct, 100);
     let mut sim = sim_plan(&mut rng, faulty);
     if rng.chance(pf.vstall_pct, 100) {
@@ -470,6 +481,17 @@ pub fn gen_p_family(prop: &str, seed: u64, pf: &PProfile) -> Plan {
                 u.push(k);
             }
         }
+        u
+    } else if pf.same_shard {
+        let r = rng.below(256);
+        let mut u: Vec<u64> = Vec::new();
+        while u.len() < n_keys {
+            let k = r + 256 * rng.below(40);
+            if !u.contains(&k) {
+                u.push(k);
+            }
+        }
+        tags.push("same_shard".into());
         u
     } else {
         gen_universe(&mut rng, n_keys)
@@ -556,18 +578,24 @@ pub fn gen_p_family(prop: &str, seed: u64, pf: &PProfile) -> Plan {
                     } else if rng.chance(pf.hold_umc_pct, 100) {
                         script.push(Op::WhileHolding { what: 1 + rng.below(2) as u8, v: (cfg.max_cost / 2 + rng.range(1, 60) as i64).max(1) });
                     }
-                    script.push(match if rng.below(10) < pf.get_ttl_tenths { 7 } else { rng.below(10) } {
+                    script.push(match if rng.below(10) < pf.get_ttl_tenths { 7 } else if pf.get_mut_heavy && rng.chance(1, 2) { 9 } else { rng.below(10) } {
                         0..=6 => Op::Get { k, hold: if rng.chance(1, 6) { rng.range(1, 5) as u32 } else { 0 } },
                         7 => Op::GetTtl { k },
                         _ => Op::GetMut { k, write: pf.get_mut_write && rng.chance(1, 2), size: rng.range(1, 9) as u32, hold: if rng.chance(1, 6) { rng.range(1, 3) as u32 } else { 0 } },
                     });
                 } else if pickp(pf.remove_pct) {
+                    if rng.chance(pf.cancel_pct, 100) {
+                        script.push(Op::CancelNext { after: rng.below(3) as u32 });
+                    }
                     script.push(Op::Remove { k });
                     writes += 1;
                 } else if pickp(pf.if_present_pct) {
                     script.push(Op::InsertIfPresent { k, cost: if cfg.coster && rng.chance(1, 3) { 0 } else { rng.range(1, max_item_cost as u64) as i64 }, size: rng.range(1, 9) as u32 });
                     writes += 1;
                 } else if pickp(pf.wait_pct) {
+                    if rng.chance(pf.cancel_pct, 100) {
+                        script.push(Op::CancelNext { after: rng.below(3) as u32 });
+                    }
                     script.push(Op::Wait);
                 } else if pickp(pf.inline_clear_pct) && ci == 0 {
                     script.push(Op::Clear);
@@ -1119,6 +1147,11 @@ pub fn gen_plan(prop: &str, seed: u64, variant: u64) -> Plan {
     if !matches!(p.cfg.keys, KeyMode::Typed { .. }) {
         p.cfg.recipe = ((variant / 3) % 8) as u8;
     }
+    // a second cache in the same process (C03/C04/C05/C10 families without tick events)
+    if matches!(prop, "C03" | "C04" | "C05" | "C10") && variant % 9 == 4 && !matches!(p.cfg.keys, KeyMode::Typed { .. }) && !p.has_tag("tick_events") && !p.has_tag("bulk") && !p.has_tag("huge_ttl") {
+        p.cfg.decoy = true;
+        p.tags.push("decoy_cache".into());
+    }
     // every seventh run goes through the constructor's defaults
     if variant % 7 == 3 {
         apply_defaults(&mut p);
@@ -1133,6 +1166,9 @@ fn gen_plan_inner(prop: &str, seed: u64, variant: u64) -> Plan {
     match prop {
         "C03" | "C10" | "C20" if variant % 40 == 11 => gen_huge_ttl(prop, seed),
         "C13" | "C15" if variant % 97 == 5 => gen_hot(prop, seed),
+        // cancellation: futures of remove()/wait() dropped at their await point (full buffer,
+        // stalled processor); every value must still leave through exactly one callback
+        "C08" if variant % 29 == 13 => gen_p_family(prop, seed, &PProfile { clients: (2, 3), keys: (2, 5), ops: (10, 30), remove_pct: 35, lookup_pct: 8, wait_pct: 6, if_present_pct: 3, small_buffer_pct: 100, cancel_pct: 60, faulty_pct: 100, over_capacity_pct: 30, collide_pct: 0, chaos_clear_pct: 0, ttl_pct: 10, sleeps: false, ..PProfile::default() }),
         // more client threads than any striping constant inside the library (25 metric stripes)
         "C17" if variant % 61 == 9 => gen_p_family(prop, seed, &PProfile { clients: (26, 34), keys: (2, 6), ops: (4, 10), barrier_every: (2, 4), lookup_pct: 65, remove_pct: 4, if_present_pct: 3, wait_pct: 0, metrics_on: true, over_capacity_pct: 30, collide_pct: 0, faulty_pct: 10, sleeps: false, ..PProfile::default() }),
         "C04" | "C05" | "C06" | "C01" | "C17" | "C07" | "C08" if variant % 193 == 7 => gen_bulk(prop, seed),
@@ -1153,6 +1189,9 @@ fn gen_plan_inner(prop: &str, seed: u64, variant: u64) -> Plan {
         "C10" | "C11" | "C12" if variant % 4 == 0 => gen_enum_chaos(prop, seed, variant),
         "C18" if variant % 3 == 0 => gen_c18_lockstep(seed),
         "C18" if variant % 3 == 1 => gen_c18_typed(seed),
+        // one shard, many keys: the shard's table grows (and moves every entry) while references
+        // into it are taken and written through
+        "C02" if variant % 4 == 2 => gen_p_family(prop, seed, &PProfile { clients: (2, 4), keys: (8, 18), ops: (16, 50), same_shard: true, get_mut_write: true, get_mut_heavy: true, lookup_pct: 45, remove_pct: 8, if_present_pct: 3, wait_pct: 6, over_capacity_pct: 10, collide_pct: 0, chaos_clear_pct: 0, ttl_pct: 5, faulty_pct: 50, barrier_every: (4, 10), sleeps: false, ..PProfile::default() }),
         "C02" if variant % 4 == 3 => gen_p_family(prop, seed, &PProfile { clients: (2, 3), keys: (2, 4), ops: (6, 20), collide_pct: 100, over_capacity_pct: 100, remove_pct: 30, lookup_pct: 30, if_present_pct: 3, wait_pct: 3, faulty_pct: 80, chaos_clear_pct: 0, ttl_pct: 15, ..PProfile::default() }),
         "C02" if variant % 4 == 1 => gen_p_family(prop, seed, &PProfile { clients: (1, 2), keys: (1, 2), ops: (5, 16), wait_pct: 35, lookup_pct: 30, remove_pct: 5, if_present_pct: 5, over_capacity_pct: 20, collide_pct: 0, chaos_clear_pct: 0, barrier_every: (3, 8), sleeps: false, ..PProfile::default() }),
         "C01" | "C02" | "C06" | "C07" | "C08" | "C10" | "C11" | "C12" | "C13" | "C15" | "C17" | "C18" | "C20" => gen_p_family(prop, seed, &profile_for(prop)),
